@@ -1211,7 +1211,19 @@ def c10_24(ctx):
 
 
 
+def c10_25(ctx):
+    """compact-size integers and strings on every width boundary: canonical form written, inverse read (rules/bitcodecs.py varint_cells)"""
+    from rules.bitcodecs import try_cells, varint_cells
+    r = try_cells(varint_cells, ctx)
+    if r is None:
+        mod, fn = rl.get(ctx, "helper:encode_varint")
+        return [ctx.err("helper:encode_varint", "compact-size codec outside the evaluator's subset", fn, mod)]
+    return r
+
+
+
 OBLIGATIONS = [
+    ("C10.25", "CELLS compact size (shared)", c10_25),
     ("C10.19", "CELLS output metadata", c10_19),
     ("C10.20", "CELLS finaliser", c10_20),
     ("C10.21", "CELLS updater sources", c10_21),
